@@ -17,8 +17,8 @@ typedef sym::Lo HL;
 inline HL tolo(const sym::Real& x){ return sym::Lo::exact(x); }
 inline sym::Real tohi(const sym::Lo& x){ return x.re(); }
 inline sym::Real fl(const sym::Real& x){ return x; }   // the symbolic input stands for a value of the narrow type
-template<class S> void bound_roundings(hx::Rec<S>& R){ std::set<int> seen; S u(sym::lo_unit_roundoff()); for(int id: sym::rnd_log()) if(seen.insert(id).second){ S d=S::from(id); R.assume(-u,1,d); R.assume(d,1,u); } }
-template<class S,class F> void with_roundings(hx::Rec<S>& R, F body){ sym::rnd_log().clear(); try{ body(); } catch(...){ bound_roundings(R); throw; } bound_roundings(R); }
+// (the driver bounds every rounding variable of a path by the unit roundoff 2^-24: harness.h run_main)
+template<class S,class F> void with_roundings(hx::Rec<S>& R, F body){ body(); }
 #else
 typedef float HL;
 inline HL tolo(double x){ return (float)x; }
